@@ -140,10 +140,10 @@ def run(ctx):
     reg_calls = [c for c in calls_in(init_f.node) if last_attr(c) == 'register_child']
     ctx.check('R3', 'Worker.__init__ registers the child', len(reg_calls) == 1, 'Worker.__init__', f'register-calls:{len(reg_calls)}',
               f'{len(reg_calls)} registration calls in the constructor (expected exactly one)', where=loc(init_f, init_f.node))
-    start_nodes = [n for n in g.nodes if n.stmt is not None and n.part in ('post',) and any(last_attr(c) == '_start' for c in calls_in(n.stmt)) and n.kind == 'stmt']
+    start_nodes = [n for n in g.nodes if n.stmt is not None and n.part in ('post',) and any(last_attr(c) == '_start' for c in n.calls()) and n.kind == 'stmt']
     if reg_calls and start_nodes:
         rc = reg_calls[0]
-        rnodes = [n for n in g.nodes if n.stmt is not None and n.kind == 'stmt' and any(c is rc for c in calls_in(n.stmt))]
+        rnodes = [n for n in g.nodes if n.stmt is not None and n.kind == 'stmt' and any(c is rc for c in n.calls())]
         dom = g.dominators(edge_ok=is_flow)
         sid = {n.id for n in start_nodes}
         ok = all(dom.get(n.id, set()) & sid for n in rnodes) and bool(rnodes)
